@@ -852,3 +852,81 @@ func ruleINTERNCOMPARE(c *Ctx) {
 		c.add(rule, "count:", token.NoPos, CountDropped, true, "only %d returns of hashing containers found in util/container (IntSliceSet.Insert and IntSliceMap.Get have two each)", n)
 	}
 }
+
+// GUARD(reuse-equal): Expand extracts lists, sets and nested choices into helper nonterminals
+// named after their content (ProvisionalName). The name is not injective (parentheses are
+// dropped, arrows and separators abbreviated), so an existing helper of the same name may be
+// reused only if the expression is structurally equal to the helper's value: the reference to
+// the *existing* symbol is created on the true edge of expr.Equal(existing value) and on no
+// other path. Otherwise a second, different expression silently denotes the first one.
+func ruleREUSEEQUAL(c *Ctx) {
+	const rule = "GUARD(reuse-equal)"
+	key := "syntax.expander.extractNonterm:reuse"
+	f := c.SSAFunc("syntax", "(*expander).extractNonterm")
+	if f == nil {
+		c.Lost(rule, key, "function not found")
+		return
+	}
+	// the index found in e.m
+	var existing []ssa.Value
+	for _, b := range f.Blocks {
+		for _, ins := range b.Instrs {
+			if ex, ok := ins.(*ssa.Extract); ok && ex.Index == 0 {
+				if lk, ok := ex.Tuple.(*ssa.Lookup); ok && lk.CommaOk && strings.HasSuffix(vpath(lk.X), ".m") {
+					existing = append(existing, ex)
+				}
+			}
+		}
+	}
+	n := 0
+	for _, b := range f.Blocks {
+		for _, ins := range b.Instrs {
+			st, ok := ins.(*ssa.Store)
+			if !ok {
+				continue
+			}
+			fa, ok := st.Addr.(*ssa.FieldAddr)
+			if !ok || fieldName(fa.X.Type(), fa.Field) != "Symbol" {
+				continue
+			}
+			// Symbol = len(Terminals) + existing ?
+			uses := false
+			var walk func(v ssa.Value, d int)
+			walk = func(v ssa.Value, d int) {
+				if d > 4 {
+					return
+				}
+				for _, e := range existing {
+					if v == e {
+						uses = true
+					}
+				}
+				if bo, ok := v.(*ssa.BinOp); ok {
+					walk(bo.X, d+1)
+					walk(bo.Y, d+1)
+				}
+			}
+			walk(st.Val, 0)
+			if !uses {
+				continue
+			}
+			n++
+			equal := false
+			for _, g := range flattenConds(governing(b)) {
+				if call, ok := g.V.(*ssa.Call); ok && g.Pol {
+					if cal := call.Call.StaticCallee(); cal != nil && cal.Name() == "Equal" {
+						equal = true
+					}
+				}
+			}
+			if equal {
+				c.Ok(rule, key, st.Pos(), "an existing helper nonterminal is reused only on the true edge of expr.Equal(its value)")
+			} else {
+				c.Bad(rule, key, st.Pos(), "an existing helper nonterminal of the same provisional name is reused on a path that did not establish expr.Equal(its value): provisional names are not injective, so a different expression (e.g. a set with other parentheses) silently expands to the first one's rules")
+			}
+		}
+	}
+	if n < 1 {
+		c.Lost(rule, key, "no reference to the existing helper (len(Terminals) + existing) found")
+	}
+}
